@@ -1,5 +1,6 @@
 import SFV.Proofs.GaussNM
 import SFV.Proofs.FockTensor
+import SFV.Proofs.Bosonic
 
 /-!
 # C01 — all simulator back ends compute the same physics
@@ -101,6 +102,13 @@ theorem fock_blas_mixed1 {K : Type} [Zero K] [Add K] [Mul K] (D n : Nat) (mat ma
     subst this; simp [blasMixed1, hn]
   · obtain ⟨hp, a, b⟩ := blasListMixed1_facts n m h1
     exact blasMixed1_applyAt1 D n mat matc m hn hp a b ρ
+
+/-- **quadrature orderings**: the bosonic simulator's `from_xp` permutation is inverted by `to_xp`
+(so `X[:, perm][perm, :]` re-expresses an xxpp matrix in the xpxp ordering of its means/covs) and
+sends position `2i + a` to mode `i`, quadrature `a` -/
+theorem bosonic_ordering {n r : Nat} (hn : 0 < n) (h : r < 2 * n) :
+    Bos.toXp n (Bos.fromXp n r) = r ∧ Bos.fromXp n r % n = r / 2 ∧ Bos.fromXp n r < 2 * n :=
+  ⟨Bos.toXp_fromXp hn h, Bos.fromXp_mode hn h, Bos.fromXp_lt h⟩
 
 /-! ### non-vacuity -/
 
